@@ -7,7 +7,7 @@ from __future__ import annotations
 import ast
 from typing import List, Optional, Tuple
 
-from .loader import AnalysisError, FuncInfo, Program
+from .loader import AnalysisError, ClassInfo, FuncInfo, Program
 
 ASSEMBLY_LAYER = ("moclo.core._assembly", "moclo.core._utils")
 
@@ -43,6 +43,8 @@ def _callees(p: Program, fi: FuncInfo) -> List[FuncInfo]:
                 _, g = p.class_attr_def(fi.owner, n.func.attr)
             elif isinstance(n.func, ast.Name):
                 g = p.resolve_expr(fi.module, n.func)
+                if isinstance(g, ClassInfo) and g.module is not None and g.module.name in ASSEMBLY_LAYER:
+                    g = g.attrs.get("__init__")  # a small class of the layer instantiated: its constructor runs
             if isinstance(g, FuncInfo):
                 out.append(g)
     return out
@@ -79,7 +81,10 @@ def _may_be_value_object(p: Program, f: FuncInfo, recv: ast.expr, vclasses) -> b
             if isinstance(c, ast.Call):
                 g = None
                 try:
-                    if isinstance(c.func, ast.Name):
+                    if isinstance(c.func, ast.Name) and f.kind == "classmethod" and f.owner is not None and f.node.args.args \
+                            and c.func.id == f.node.args.args[0].arg:
+                        g = f.owner  # cls(...) in an alternative constructor
+                    elif isinstance(c.func, ast.Name):
                         g = p.resolve_expr(f.module, c.func)
                     elif isinstance(c.func, ast.Attribute) and isinstance(c.func.value, ast.Name) and c.func.value.id in ("self", "cls") and f.owner is not None:
                         _, g = p.class_attr_def(f.owner, c.func.attr)
@@ -403,6 +408,16 @@ def citation_functions(p: Program) -> Tuple[FuncInfo, FuncInfo]:
 
     deref, ref = innermost(d_entries), innermost(r_entries)
     if len(ref) != 1 or len(deref) != 1:
+        # the pair may live on a small class of the layer (a citation table wrapped around one record, with one method for
+        # each direction): its methods are candidates too
+        lf2 = list(layer_functions(p))
+        table = {id(f): feats(f) for f in lf2}
+        d2 = [f for f in lf2 if table[id(f)][0] and table[id(f)][1] and table[id(f)][2] and not table[id(f)][3] and not table[id(f)][4]]
+        r2 = [f for f in lf2 if table[id(f)][0] and table[id(f)][1] and (table[id(f)][3] or table[id(f)][4]) and not table[id(f)][2]]
+        d2, r2 = innermost(d2), innermost(r2)
+        if len(d2) == 1 and len(r2) == 1 and d2[0].owner is not None and d2[0].owner is r2[0].owner:
+            deref, ref = d2, r2
+    if len(ref) != 1 or len(deref) != 1:
         raise AnalysisError("anchor vanished: the citation rewrite pair is not recognised in %s (dereference candidates %s, re-reference candidates %s)"
                             % (", ".join(ASSEMBLY_LAYER), [f.qualname for f in deref], [f.qualname for f in ref]))
     p._citation_functions = (deref[0], ref[0])
@@ -552,8 +567,75 @@ def manager_phases(p: Program) -> dict:
     return out
 
 
+def map_carrier(p: Program, map_phase: FuncInfo):
+    """(class, attribute) when the map phase hands on, instead of the dict itself, an object of a small class of the code
+    base that keeps the dict (`return _ModuleIndex.of(self.modules)`); None when it returns the dict.  The class is read off
+    the return expressions; the attribute is the one `__init__` binds to an empty dict."""
+    rets = [n.value for n in ast.walk(map_phase.node) if isinstance(n, ast.Return) and n.value is not None]
+    found = set()
+    if map_phase.name == "__init__" and map_phase.owner is not None and map_phase.owner.name != "AssemblyManager":
+        found.add(map_phase.owner)  # the map phase is the constructor of the index object itself
+    for v in rets:
+        if not isinstance(v, ast.Call):
+            continue
+        fn = v.func
+        ci = None
+        try:
+            r = p.resolve_expr(map_phase.module, fn)
+        except Exception:
+            r = None
+        if isinstance(r, ClassInfo):
+            ci = r
+        elif isinstance(fn, ast.Attribute):
+            try:
+                r = p.resolve_expr(map_phase.module, fn.value)
+            except Exception:
+                r = None
+            if isinstance(r, ClassInfo):
+                _, m = p.class_attr_def(r, fn.attr)
+                if isinstance(m, FuncInfo) and m.kind == "classmethod":
+                    ci = r
+        if ci is not None:
+            found.add(ci)
+    if len(found) != 1:
+        return None
+    ci = found.pop()
+    _, init = p.class_attr_def(ci, "__init__")
+    if not isinstance(init, FuncInfo) or not init.node.args.args:
+        return None
+    me = init.node.args.args[0].arg
+    slots = [n.targets[0].attr for n in ast.walk(init.node)
+             if isinstance(n, ast.Assign) and len(n.targets) == 1 and isinstance(n.targets[0], ast.Attribute)
+             and isinstance(n.targets[0].value, ast.Name) and n.targets[0].value.id == me
+             and ((isinstance(n.value, ast.Dict) and not n.value.keys) or (isinstance(n.value, ast.Call) and not n.value.args and not n.value.keywords
+                                                                            and ast.unparse(n.value.func).split(".")[-1] in ("dict", "OrderedDict")))]
+    if len(slots) != 1:
+        return None
+    return ci, slots[0]
+
+
 # ---------------------------------------------------------------------------
 # the per-class compiled structure
+
+
+def _is_pattern_compiler(p: Program, f: FuncInfo, fn: ast.expr) -> bool:
+    """`fn(text)` compiles the text: DNARegex itself, or a module-level helper whose every return is DNARegex(<its one
+    parameter>) (a compile step shared between classes, memoised on the text or not)"""
+    if not isinstance(fn, ast.Name):
+        return False
+    if fn.id == "DNARegex":
+        return True
+    try:
+        g = p.resolve_expr(f.module, fn)
+    except Exception:
+        return False
+    if not isinstance(g, FuncInfo) or g.owner is not None:
+        return False
+    params = [a.arg for a in g.node.args.posonlyargs + g.node.args.args]
+    rets = [n.value for n in ast.walk(g.node) if isinstance(n, ast.Return)]
+    return len(params) == 1 and bool(rets) and all(
+        isinstance(v, ast.Call) and isinstance(v.func, ast.Name) and v.func.id == "DNARegex" and len(v.args) == 1 and not v.keywords
+        and isinstance(v.args[0], ast.Name) and v.args[0].id == params[0] for v in rets)
 
 
 def regex_getter(p: Program) -> FuncInfo:
@@ -571,7 +653,7 @@ def regex_getter(p: Program) -> FuncInfo:
     if rx is not None:
         funcs += list(rx.functions.values())
     for f in funcs:
-        if any(isinstance(n, ast.Call) and isinstance(n.func, ast.Name) and n.func.id == "DNARegex" and n.args and isinstance(n.args[0], ast.Call)
+        if any(isinstance(n, ast.Call) and _is_pattern_compiler(p, f, n.func) and n.args and isinstance(n.args[0], ast.Call)
                and isinstance(n.args[0].func, ast.Attribute) and n.args[0].func.attr == "structure" for n in ast.walk(f.node)):
             cands.append(f)
     if len(cands) != 1:
@@ -585,7 +667,7 @@ def regex_slot(p: Program) -> str:
     """name of the per-class attribute the compiled pattern is kept in"""
     g = regex_getter(p)
     for n in ast.walk(g.node):
-        if isinstance(n, ast.Assign) and isinstance(n.value, ast.Call) and isinstance(n.value.func, ast.Name) and n.value.func.id == "DNARegex":
+        if isinstance(n, ast.Assign) and isinstance(n.value, ast.Call) and _is_pattern_compiler(p, g, n.value.func):
             for t in n.targets:
                 if isinstance(t, ast.Attribute):
                     return t.attr
